@@ -100,20 +100,34 @@ def materialise(d: dict, root: str, out_name: str = 'out') -> list[str]:
         contig = d['contig']
         seqs = {contig: d['ref']}
         seqs.update(d.get('extra_contigs') or {})
+        # clone_contig: the whole design repeated on a second contig with the same sequence and its own gene (every record of every
+        # input file once more under the other contig name)
+        c2 = d.get('clone_contig')
+        if c2:
+            seqs[c2] = d['ref']
         contig_lens = {k: len(v) for k, v in seqs.items()}
         write_fasta(os.path.join(root, 'ref.fa'), seqs)
         rows = [TARGETON_HEADER if 'targeton_header' not in d else d['targeton_header']]
         rows += [targeton_row(contig, d['strand'], t) for t in d['targetons']]
+        if c2:
+            rows += [targeton_row(c2, d['strand'], t) for t in d['targetons']]
+
+        def both(recs):
+            return list(recs) + ([dict(r, contig=c2) for r in recs if r.get('contig', contig) == contig] if c2 else [])
         _write(os.path.join(root, 'targetons.tsv'), ''.join('\t'.join(r) + '\n' for r in rows))
         argv = ['sge', os.path.join(root, 'targetons.tsv'), os.path.join(root, 'ref.fa'),
                 os.path.join(root, out_name), d.get('species', 'sp'), d.get('assembly', 'asm')]
         if d.get('gtf'):
-            _write(os.path.join(root, 'annot.gtf'), gtf_text(contig, d['strand'], d['gtf']))
+            gt = gtf_text(contig, d['strand'], d['gtf'])
+            if c2:
+                g2 = dict(d['gtf'], gene_id=(d['gtf'].get('gene_id') or 'G') + '_2', transcript_id=(d['gtf'].get('transcript_id') or 'T') + '_2')
+                gt += gtf_text(c2, d['strand'], g2)
+            _write(os.path.join(root, 'annot.gtf'), gt)
             argv += ['--gff', os.path.join(root, 'annot.gtf')]
         if d.get('pam') is not None:
             recs = [{'pos': p['pos'], 'ref': p['ref'], 'alts': [p['alt']], 'contig': p.get('contig', contig),
                      'info': ({'SGRNA': p['sgrna']} if p.get('sgrna') is not None else {})} for p in d['pam']]
-            _write(os.path.join(root, 'pam.vcf'), vcf_text(contig_lens, recs, ['SGRNA']))
+            _write(os.path.join(root, 'pam.vcf'), vcf_text(contig_lens, both(recs), ['SGRNA']))
             argv += ['--pam', os.path.join(root, 'pam.vcf')]
         if d.get('vcfs') is not None:
             man = [d.get('manifest_header', ['vcf_alias', 'vcf_id_tag', 'vcf_path'])]
@@ -124,15 +138,15 @@ def materialise(d: dict, root: str, out_name: str = 'out') -> list[str]:
                 if not v.get('missing'):
                     tags = list(v.get('declared_tags') if v.get('declared_tags') is not None else
                                 ([v['id_tag']] if v.get('id_tag') else []))
-                    _write(fp, vcf_text(contig_lens, v['records'], tags))
+                    _write(fp, vcf_text(contig_lens, both(v['records']), tags))
                 man.append([v['alias'], v.get('id_tag') or '', fp])
             _write(os.path.join(root, 'manifest.csv'), ''.join(','.join(r) + '\n' for r in man))
             argv += ['--vcf', os.path.join(root, 'manifest.csv')]
         if d.get('bg') is not None:
-            _write(os.path.join(root, 'bg.vcf'), vcf_text(contig_lens, d['bg'], []))
+            _write(os.path.join(root, 'bg.vcf'), vcf_text(contig_lens, both(d['bg']), []))
             argv += ['--bg', os.path.join(root, 'bg.vcf')]
         if d.get('mask') is not None:
-            _write(os.path.join(root, 'mask.bed'), ''.join('\t'.join(map(str, r)) + '\n' for r in d['mask']))
+            _write(os.path.join(root, 'mask.bed'), ''.join('\t'.join(map(str, r)) + '\n' for r in list(d['mask']) + ([[c2] + list(r[1:]) for r in d['mask'] if r[0] == contig] if c2 else [])))
             argv += ['--bg-mask', os.path.join(root, 'mask.bed')]
         if o.get('revcomp'):
             argv.append('--revcomp-minus-strand')
